@@ -291,7 +291,11 @@ outerloop:
 			}
 		}
 
-		opElementLength = PDUSessionEstablishmentAcceptOptionalElementsLength[opElementID]
+		var known bool
+		opElementLength, known = PDUSessionEstablishmentAcceptOptionalElementsLength[opElementID]
+		if !known {
+			break outerloop // unknown IEI: its length cannot be determined
+		}
 
 		if opElementLength > 0 {
 			index += opElementLength
